@@ -172,6 +172,26 @@ func run(r *hx.Result, cfg hx.Config) {
 		// the EVALRO probe above, which goes through the same lookup)
 	}
 
+	// ---------- KEYS / ARGV must not survive a call, also a failed one ----------
+	{
+		c.MustDo("SET", "leakprobe", "o", "POINT", "1", "1")
+		fails := [][]string{
+			{"EVALSHA", "ffffffffffffffffffffffffffffffffffffffff", "1", "secretkey", "secretarg"}, // unknown digest
+			{"EVAL", "this is not lua (", "1", "secretkey", "secretarg"},                          // does not compile
+			{"EVAL", "error('boom')", "1", "secretkey", "secretarg"},                               // fails at run time
+			{"EVAL", "return 1", "1", "secretkey", "secretarg"},                                    // succeeds
+		}
+		for _, f := range fails {
+			c.MustDo(f...)
+			// the next user of the pooled state is a WHEREEVAL filter, which sets no KEYS of its own
+			v := c.MustDo("SCAN", "leakprobe", "WHEREEVAL", "return (KEYS ~= nil and KEYS[1] == 'secretkey') or (ARGV ~= nil and ARGV[1] == 'secretarg')", "0", "COUNT")
+			r.Count("keys-leak/"+f[0]+"/"+f[1][:4], true)
+			if v.Kind == ':' && v.Int != 0 {
+				r.Fail(hx.Failure{Kind: "oracle", Signature: "keys-argv-survive-call", What: fmt.Sprintf("after %q a WHEREEVAL filter on the same pooled state still sees the call's KEYS/ARGV", strings.Join(f[:2], " "))})
+			}
+		}
+	}
+
 	// ---------- pool growth: states created on demand must be guarded like the initial ones ----------
 	{
 		var wg sync.WaitGroup
